@@ -501,6 +501,18 @@ fn declare(
 					.collect();
 			let mut param_types: Vec<LLVMTypeRef> = param_types?;
 
+			// A constant may have the same name as a function. Its global is
+			// private, so it is the one to give up the name as a symbol.
+			unsafe {
+				let namesake =
+					LLVMGetNamedGlobal(llvm.module, function_name.as_ptr());
+				if !namesake.is_null()
+				{
+					let renamed = CString::new(format!("{}.const", name.name))?;
+					LLVMSetValueName(namesake, renamed.as_ptr());
+				}
+			}
+
 			let function: LLVMValueRef = unsafe {
 				let function_type = LLVMFunctionType(
 					return_type,
